@@ -150,8 +150,48 @@ def _check_case(durs, cols, off, res, light_too=True):
                 if got != exp:
                     res.violation(f"C17|n={len(durs)}|route:{lab}|wrong-state", f"{case0} t={t}: got {got} expected {exp}", dict(case0, t=t))
                     break
+        # the deep copy / the unpickled copy is a cycle of its own: its elements are edited through the setters (colours reversed, durations
+        # rotated) - the copy follows its new definition, the source keeps the definition it was constructed with
+        for lab, maker in (("deepcopy", _copy.deepcopy), ("pickle", lambda o_: _pickle.loads(_pickle.dumps(o_)))):
+            src2, srcl = mk(), TrafficLight(12, np.array([0.0, 0.0]), mk())
+            cp, cpl = maker(src2), maker(srcl)
+            ncols, ndurs = list(cols)[::-1], list(durs)[1:] + list(durs)[:1]
+            for obj in (cp, cpl.traffic_light_cycle):
+                for el, c_, d_ in zip(obj.cycle_elements, ncols, ndurs):
+                    el.state = c_; el.duration = d_
+            nexp = [c_ for c_, d_ in zip(ncols, ndurs) for _ in range(d_)]
+            for t in ts:
+                for lab2, obj, ex in ((f"source-of-an-edited-{lab}(cycle)", src2, expanded), (f"source-of-an-edited-{lab}(light)", srcl, expanded),
+                                      (f"edited-{lab}(cycle)", cp, nexp), (f"edited-{lab}(light)", cpl, nexp)):
+                    res.evals += 1; res.transitions += 1
+                    got = obj.get_state_at_time_step(t)
+                    if got != ex[(t - off) % T]:
+                        res.violation(f"C17|n={len(durs)}|route:{lab2}|wrong-state", f"{case0} t={t}: got {got} expected {ex[(t - off) % T]}", dict(case0, t=t))
+                        break
+                else:
+                    continue
+                break
     except Exception as e:
         res.violation(f"C17|n={len(durs)}|route:copies|raises:{type(e).__name__}", repr(e), dict(case0))
+    # (g) the offset handed over in the integer types a caller may hold it in (numpy integers from an array or a sum)
+    try:
+        reps = [("numpy.int64", np.int64(off)), ("numpy.int32", np.int32(off)), ("numpy-array-element", np.array([off, 0])[0]), ("sum-of-numpy-integers", np.array([off - 1, 1]).sum())]
+        objs = [(nm, TrafficLightCycle([TrafficLightCycleElement(c, d) for c, d in zip(cols, durs)], time_offset=v)) for nm, v in reps]
+        late = mk(); late.time_offset = np.int64(off + 1)
+        for t in ts:
+            for nm, obj in objs:
+                res.evals += 1; res.transitions += 1
+                got = obj.get_state_at_time_step(t)
+                if got != expanded[(t - off) % T]:
+                    res.violation(f"C17|n={len(durs)}|offset-as:{nm}|wrong-state", f"{case0} t={t}: got {got} expected {expanded[(t - off) % T]}", dict(case0, t=t))
+                    objs = [o_ for o_ in objs if o_[0] != nm]
+                    break
+            got = late.get_state_at_time_step(t)
+            if late is not None and got != expanded[(t - off - 1) % T]:
+                res.violation(f"C17|n={len(durs)}|offset-as:numpy.int64(assigned-through-the-setter)|wrong-state", f"{case0} t={t}: got {got} expected {expanded[(t - off - 1) % T]}", dict(case0, t=t))
+                break
+    except Exception as e:
+        res.violation(f"C17|n={len(durs)}|offset-representations|raises:{type(e).__name__}", repr(e), dict(case0))
     # (c) a light is given a cycle that EQUALS the one it has but is another object, and that object is edited afterwards: the light follows the
     #     cycle it was given.  (d) two cycles constructed from one Python list; one of them is then assigned a new element list: the other keeps
     #     its definition
